@@ -33,7 +33,31 @@ def is_setlike(M, fn, e, setvars):
         return is_setlike(M, fn, e.left, setvars) or is_setlike(M, fn, e.right, setvars)
     if isinstance(e, ast.Name) and e.id in setvars:
         return True
+    if isinstance(e, ast.Attribute) and isinstance(e.value, ast.Name) and e.value.id == 'self' and fn.cls is not None and isinstance(e.ctx, ast.Load):
+        return e.attr in _set_fields(M, fn.cls)
     return False
+
+
+def _set_fields(M, cls):
+    """fields of the class every assignment to which (anywhere in the class family) is a set / frozenset construction"""
+    cache = getattr(M, '_set_fields_cache', None)
+    if cache is None:
+        cache = M._set_fields_cache = {}
+    if cls.name in cache:
+        return cache[cls.name]
+    cache[cls.name] = set()
+    vals = {}
+    for k in cls.mro():
+        for m in k.methods.values():
+            for n in ast.walk(m.node):
+                if isinstance(n, ast.Assign):
+                    for t in n.targets:
+                        if isinstance(t, ast.Attribute) and isinstance(t.value, ast.Name) and t.value.id == 'self':
+                            vals.setdefault(t.attr, []).append((m, n.value))
+    out = {f_ for f_, vs in vals.items() if vs and all(isinstance(v_, (ast.Set, ast.SetComp)) or (isinstance(v_, ast.Call) and isinstance(v_.func, ast.Name)
+                                                                                                 and v_.func.id in ('set', 'frozenset') and v_.args) for _, v_ in vs)}
+    cache[cls.name] = out
+    return out
 
 
 def _comp_result_is_order_free(fn, pm, gen):
@@ -674,7 +698,13 @@ def new_memo(ctx, f):
         else:
             ctx.holds('C18.memo', inst + ' (no effect, reads its arguments and construction-time state, returns an immutable value)', f.site())
         return
-    deep = 'deep' in kinds
+    _result_aliasing(ctx, f, inst, 'deep' in kinds, open_)
+
+
+def _result_aliasing(ctx, f, inst, deep, open_):
+    """the (memoised) object f hands out is the stored one: what do the call sites do with it?  A caller that returns it hands it on to its own callers."""
+    from ..symex import Undecided
+    M = ctx.M
     # the cached object is handed to every caller: what do the call sites do with it?  A caller that returns it hands it on to its own callers.
     verdict = []
     visited = set()
@@ -895,6 +925,22 @@ def memoisation(ctx):
                 shared = any(fld in k.class_attrs for k in c.mro()) and not any(w.fn.name == '__init__' or _ctor_only(M, w.fn) for w in writers_of_attr(M, fld, owner=cname))
                 if mt is not None and mt[0] == 'sound' and not shared:
                     ctx.holds('C18.memo', '%s: self.%s is a memo table keyed by every argument its entries depend on (%s)' % (m.qn, fld, fmt(mt[1])[:60]), m.site(n))
+                    # ... and the remembered object itself, when it is a container and is handed out as it is (not a copy), must not be changed by whoever receives it
+                    try:
+                        mps_ = summarise(ctx, m, policy=default_policy)
+                        stored_ = [w_.value for p_ in mps_ for w_ in heap_writes(p_) if w_.loc[0] == 'sub' and w_.loc[1][0] == 'attr' and w_.loc[1][2] == fld and w_.value is not None]
+                        kinds_ = {_mutability(v_) for v_ in stored_}
+                        handed = False
+                        for p_ in mps_:
+                            if p_.outcome != 'return' or p_.value is None:
+                                continue
+                            for R_ in stored_ + [s_ for s_ in T.subterms(p_.value) if s_[0] == 'sub' and s_[1][0] == 'attr' and s_[1][2] == fld]:
+                                if any(s_ == R_ for s_ in T.subterms(p_.value)) and not all(_wrapped_by_copy(p_.value, R_)):
+                                    handed = True
+                        if stored_ and not kinds_ <= {'immutable'} and handed and m.name != '__init__':
+                            _result_aliasing(ctx, m, 'the remembered %s entries of %s are only read by those who receive them' % (fld, m.qn), 'deep' in kinds_, [])
+                    except Undecided:
+                        pass
                     continue
                 if mt is not None and mt[0] == 'sound' and shared:
                     ctx.violation('C18.memo', 'stateless components keep no state between calls (%s)' % m.qn, m.site(n),
